@@ -98,7 +98,16 @@ Unsubscribe(g, a) ==
                       /\ UNCHANGED <<tbl, sub, avail>>
     /\ UNCHANGED <<n, started>>
 
+(* the NCP's table changes behind the host's back (the NCP restarted and lost entries, or something else programmed it): the   *)
+(* host's view is stale until the next start-up scan, which must rebuild it from the table alone                              *)
+NcpChange ==
+    /\ started
+    /\ \E t \in InitTables(n) : tbl' = t
+    /\ started' = FALSE /\ ret' = "none" /\ wrote' = None
+    /\ UNCHANGED <<n, sub, avail>>
+
 Next == \/ Startup
+        \/ NcpChange
         \/ \E g \in Groups, a \in Answers : Subscribe(g, a) \/ Unsubscribe(g, a)
 
 Spec == Init /\ [][Next]_vars
